@@ -1,6 +1,8 @@
 import Astria.Merkle.Theorems
 import Astria.Merkle.Index
 import Astria.Composer.Theorems
+import Astria.Quorum.Theorems
+import Astria.Quorum.Median
 /-
   The property theorems, and nothing else.  One block per property of
   /verif/properties.jsonl; helper lemmas live in the area modules.  Statements here are the
@@ -83,5 +85,89 @@ example :
     r.accepted = [⟨1, 6⟩, ⟨2, 6⟩] ∧ r.emitted.length = 2 := by decide
 
 end C16
+
+
+/-! ## C09 — Conductor accepts firm data only if >2/3 voting power committed the block -/
+section C09
+open Astria.Quorum
+
+/-- The quorum threshold is exactly "strictly more than two thirds". -/
+theorem C09_quorum_exact (c t : Nat) : hasQuorum c t = true ↔ 3 * c > 2 * t := hasQuorum_exact c t
+
+/-- For every validator set, commit and signature oracle: if `ensure_commit_has_quorum` accepts,
+    the commit's height equals the validator set's and there is a duplicate-free list of
+    validators of the set, each with a signature in the commit that verifies under its own key,
+    holding strictly more than two thirds of the total voting power. -/
+theorem C09_accept_sound (sigOk : Nat → Nat → Bool) (hm : Bool) (vals : List Validator)
+    (sigs : List CommitSig) (h : ensureQuorum sigOk hm vals sigs = .ok ()) :
+    hm = true ∧ ∃ total, totalPower vals = some total ∧ ∃ S : List Nat, S.Nodup ∧
+      (∀ a ∈ S, ∃ v s, lookup vals a = some v ∧ CommitSig.commit a (some s) ∈ sigs ∧ sigOk v.key s = true) ∧
+      3 * powerOf vals S > 2 * total := ensureQuorum_sound sigOk hm vals sigs h
+
+/-- Metadata is kept only if the commit has quorum and chain id and block hash equal the commit's. -/
+theorem C09_metadata_bound (q c hsh : Bool) (h : acceptMetadata q c hsh = true) :
+    q = true ∧ c = true ∧ hsh = true := acceptMetadata_sound q c hsh h
+
+/-- The pinned source violated the statement in three ways (fixed by `fix:` commits 71ea661 and
+    c1a8dd4): 3 of 5 passed the threshold; a hash mismatch was only logged. (Duplicate counting:
+    see the replay in corpus/quorum.ops.) -/
+theorem C09_original_counterexamples :
+    (hasQuorumOriginal 3 5 = true ∧ ¬ (3 * 3 > 2 * 5)) ∧ acceptMetadataOriginal true true false = true :=
+  ⟨hasQuorumOriginal_counterexample, acceptMetadataOriginal_counterexample⟩
+
+/-- Non-vacuity: 4 validators, 3 distinct valid signatures are accepted; the same signature
+    three times is not. -/
+example :
+    ensureQuorum (fun k s => k == s) true [⟨1, 1⟩, ⟨2, 1⟩, ⟨3, 1⟩, ⟨4, 1⟩]
+      [.commit 1 (some 1), .commit 2 (some 2), .other, .commit 4 (some 4)] = .ok () ∧
+    ensureQuorum (fun k s => k == s) true [⟨1, 1⟩, ⟨2, 1⟩, ⟨3, 1⟩, ⟨4, 1⟩]
+      [.commit 1 (some 1), .commit 1 (some 1), .commit 1 (some 1)] = .error .duplicateVote := by decide
+
+end C09
+
+/-! ## C15 — Oracle prices need >2/3 validly signed extensions and stay within reported range -/
+section C15
+open Astria.Quorum
+
+/-- The vote-extension threshold `submitted ≥ 2·total/3 + 1` is exactly "strictly more than 2/3". -/
+theorem C15_threshold (s t : Nat) : s ≥ t * 2 / 3 + 1 ↔ 3 * s > 2 * t := ve_threshold s t
+
+/-- A proposal carrying a non-empty extended commit (height > 1) is accepted only if the rounds
+    match, the extended commit matches the last commit entry by entry (address, power, flag —
+    or an absent vote without extension), voters are distinct, every commit-flagged vote is
+    signed validly under the key stored for the validator it is attributed to, every other vote
+    carries neither extension nor signature, and the signers hold strictly more than two thirds
+    of the listed voting power. -/
+theorem C15_accept_sound (sigOk : Nat → Nat → Bool) (keyOf : Nat → Option Nat) (height : Nat)
+    (rm : Bool) (last : List LastVote) (ext : List ExtVote) (hh : height ≠ 1) (hne : ext ≠ [])
+    (h : validateProposal sigOk keyOf height rm last ext = .ok ()) :
+    rm = true ∧ last.length = ext.length ∧
+    (∀ i (h1 : i < last.length) (h2 : i < ext.length),
+        last[i].addr = ext[i].addr ∧ last[i].power = ext[i].power ∧
+        (ext[i].flag = last[i].flag ∨ (ext[i].flag = .absent ∧ ext[i].extEmpty = true ∧ ext[i].sig = none))) ∧
+    (ext.map (·.addr)).Nodup ∧
+    (∀ v ∈ ext, (v.flag = .commit → ∃ k s, keyOf v.addr = some k ∧ v.sig = some s ∧ sigOk k s = true) ∧
+                (v.flag ≠ .commit → v.extEmpty = true ∧ v.sig = none)) ∧
+    3 * sumCommitPower ext > 2 * sumPower ext := by
+  obtain ⟨h1, h2, h3, h4⟩ := validateProposal_sound sigOk keyOf height rm last ext hh hne h
+  obtain ⟨h5, h6, h7⟩ := validateVoteExtensions_sound sigOk keyOf ext h4
+  exact ⟨h1, h2, againstLastLoop_sound last ext h2 h3, h5, h6, h7⟩
+
+/-- An empty extended commit is always acceptable. -/
+theorem C15_empty_ok (sigOk : Nat → Nat → Bool) (keyOf : Nat → Option Nat) (height : Nat)
+    (last : List LastVote) : validateProposal sigOk keyOf height true last [] = .ok () :=
+  empty_extended_commit_ok sigOk keyOf height last
+
+/-- Each published price (the median) exists for a non-empty report list and lies between two
+    reported prices, hence between the smallest and the largest. -/
+theorem C15_median_in_range (ps : List Int) (hne : ps ≠ []) :
+    ∃ m, median ps = some m ∧ ∃ a ∈ ps, ∃ b ∈ ps, a ≤ m ∧ m ≤ b := median_in_range ps hne
+
+/-- The pinned `median` left the range for negative odd pairs (fixed by `fix:` commit 933c6c9). -/
+theorem C15_original_counterexample :
+    medianOriginal [-3, -3] = some (-2) ∧ ¬ (∃ b ∈ [(-3 : Int), -3], (-2 : Int) ≤ b) :=
+  medianOriginal_counterexample
+
+end C15
 
 end Astria
